@@ -326,3 +326,119 @@ func fmtAssign(a map[string]bool, names []string) string {
 	}
 	return "{" + strings.Join(parts, ",") + "}"
 }
+
+// effects returns the described side-effect events of a path, skipping local
+// stores and calls whose callee name is in pure.
+func (p *Path) effects(pure ...string) []string {
+	var out []string
+	for _, e := range p.Events {
+		if e.Kind == "store" {
+			continue
+		}
+		skip := false
+		for _, pn := range pure {
+			if strings.HasPrefix(e.Desc, pn+"(") {
+				skip = true
+			}
+		}
+		if skip {
+			continue
+		}
+		if e.Kind == "call" {
+			out = append(out, e.Desc)
+		} else {
+			out = append(out, e.Kind+" "+e.Desc)
+		}
+	}
+	return out
+}
+
+// holds reports whether cond c is among the path's branch outcomes.
+func (p *Path) holds(c string) bool {
+	for _, x := range p.Conds {
+		if x == c {
+			return true
+		}
+	}
+	return false
+}
+
+// closureBindings describes, in the enclosing function, the values captured
+// by the function literal lit (index = free variable number).
+func closureBindings(lit *ssa.Function) []string {
+	parent := lit.Parent()
+	if parent == nil {
+		return nil
+	}
+	var out []string
+	eachInstr(parent, func(ins ssa.Instruction) {
+		mc, ok := ins.(*ssa.MakeClosure)
+		if !ok || mc.Fn != lit {
+			return
+		}
+		out = nil
+		for _, b := range mc.Bindings {
+			out = append(out, describeBinding(b, lit))
+		}
+	})
+	return out
+}
+
+// bindingValues returns the captured values themselves.
+func bindingValues(lit *ssa.Function) []ssa.Value {
+	parent := lit.Parent()
+	if parent == nil {
+		return nil
+	}
+	var out []ssa.Value
+	eachInstr(parent, func(ins ssa.Instruction) {
+		if mc, ok := ins.(*ssa.MakeClosure); ok && mc.Fn == lit {
+			out = mc.Bindings
+		}
+	})
+	return out
+}
+
+// describeBinding describes a captured variable: a local captured by reference
+// with a single store in the enclosing function (and none in the literal)
+// prints as the stored value.
+func describeBinding(b ssa.Value, lit *ssa.Function) string {
+	a, ok := b.(*ssa.Alloc)
+	if !ok {
+		return describe(b)
+	}
+	st := storesTo(a)
+	if len(st) != 1 {
+		return describe(b)
+	}
+	// the literal must not assign the variable
+	for i, bv := range bindingValues(lit) {
+		if bv != b {
+			continue
+		}
+		fv := lit.FreeVars[i]
+		for _, ref := range *fv.Referrers() {
+			if s, ok := ref.(*ssa.Store); ok && s.Addr == fv {
+				return describe(b)
+			}
+		}
+	}
+	return describe(st[0])
+}
+
+// pos returns a valid position for the path's exit.
+func (p *Path) pos() token.Pos {
+	if p.Exit == nil {
+		return token.NoPos
+	}
+	if p.Exit.Pos().IsValid() {
+		return p.Exit.Pos()
+	}
+	b := p.Exit.Block()
+	for i := len(b.Instrs) - 1; i >= 0; i-- {
+		if b.Instrs[i].Pos().IsValid() {
+			return b.Instrs[i].Pos()
+		}
+	}
+	return p.Exit.Parent().Pos()
+}
